@@ -36,6 +36,11 @@ CHECKS = {
          'For every showdown reached in the tiny-deck families (side pots, two boards, hi-lo, manual default-argument showdown in any kill order) the payoffs produced by the engine-chosen show/muck and kill decisions equal the reference award with everybody tabling; a hand mucked or killed by default wins nothing in the reference; tournament all-in/final showdowns refuse partial shows (two-hole-card family).',
          'Same tiny-deck trusted base as C02. Complete mucks at a tournament all-in are not judged.',
          'DESIGN.md section 4 C12'),
+ 'C08': ('model_checking',
+         'explicit-state BFS over the real State; at every reachable state every operation is attempted with a menu of valid/invalid/boundary arguments on copies, comparing query, verifier and operation and deep state equality after refusals',
+         'Every reachable state of small manual/semi-manual state graphs (NT 2-3 players both modes, cash all-in run-outs, stud, single draw, double-board PLO, tiny two-street games with two boards; both warning filters) x the full argument menu (wrong player, wrong phase, amounts around the bounds, non-positive counts, too many / unknown / in-play / duplicate cards, partial shows): can_* returns a bool without raising or mutating, verify_* agrees and is pure, the operation succeeds iff the query said yes, refusals are ValueError/UserWarning and leave every field equal, explicit indices are honoured.',
+         'Arguments of the documented types only. Known defects (unknown cards accepted then failing in evaluation; showdown-muck cluster) are listed in known_findings.json and prune their branch.',
+         'DESIGN.md section 4 C08'),
 }
 
 def main():
